@@ -605,7 +605,247 @@ def check_c18(tier, seed):
         "Accept headers without repeated media types and without q=0"]}
 
 
-CHECKS = {"C20": check_c20, "C19": check_c19, "C17": check_c17, "C18": check_c18}
+# ---------------------------------------------------------------------------
+# C15 -- reference value types and triples
+
+REF_CLASSES = ["tuple", "ref", "namable", "named"]
+
+
+def _ref_cls(name):
+    from curies import NamableReference, NamedReference, Reference, ReferenceTuple
+    return {"tuple": ReferenceTuple, "ref": Reference, "namable": NamableReference, "named": NamedReference}[name]
+
+
+def _cls_name(obj):
+    from curies import NamableReference, NamedReference, Reference, ReferenceTuple
+    if isinstance(obj, ReferenceTuple):
+        return "tuple"
+    if type(obj) is NamedReference:
+        return "named"
+    if type(obj) is NamableReference:
+        return "namable"
+    if type(obj) is Reference:
+        return "ref"
+    return "other:" + type(obj).__name__
+
+
+def enc_ref(I, obj):
+    nm = getattr(obj, "name", None)
+    return {"cls": _cls_name(obj), "p": I(str(obj.prefix)), "id": I(obj.identifier), "name": [] if nm is None else [I(nm)]}
+
+
+def _enc_out(I, f):
+    import impl
+    try:
+        return ["ok", enc_ref(I, f())], None
+    except Exception as e:  # noqa: BLE001
+        return impl.enc_exc(e), e
+
+
+def build_ref(cls, p, ident, name, ctx):
+    C = _ref_cls(cls)
+    if cls == "tuple":
+        return C(p, ident)
+    data = {"prefix": p, "identifier": ident}
+    if cls in ("namable", "named") and name is not None:
+        data["name"] = name
+    if ctx is None:
+        return C(**data)
+    return C.model_validate(data, context=ctx)
+
+
+def from_curie_ref(cls, s, sep, name, ctx):
+    C = _ref_cls(cls)
+    if cls == "tuple":
+        return C.from_curie(s, sep=sep)
+    if cls == "ref":
+        return C.from_curie(s, sep=sep, converter=ctx)
+    return C.from_curie(s, name, sep=sep, converter=ctx)
+
+
+def check_c15(tier, seed):
+    t0 = time.time()
+    quick = tier == "quick"
+    rng = random.Random(seed + 15)
+    model, states, cex = run_model("mc/MC_Refs.tla", "RSpec", {"FoldMap": "<- Fold", "MaxRefs": 2 if quick else 3},
+                                   ["Inv_C15", "Inv_C15split", "Inv_C15ctx"], 900 if quick else 3400, want=("heap",), dump=quick)
+    if not quick:
+        _, states, _ = run_model("mc/MC_Refs.tla", "RSpec", {"FoldMap": "<- Fold", "MaxRefs": 2}, ["Inv_C15"], 900, want=("heap",))
+    import impl
+    import curies
+    calls = WebCalls({"C15"})
+    I = calls.I
+    cmaps = [{1: "a", 2: "A", 3: "1", 4: "2", 58: ":", 9: "n", 10: "m"}, {1: "ß", 2: "ẞ", 3: "é", 4: "\U0001d4b3", 58: ":", 9: "名", 10: "m n"}]
+    ctx_recs = [[{"p": "a", "u": "http://e.org/a/", "ps": ["A"], "us": [], "pat": None}],
+                [{"p": "ß", "u": "http://e.org/s/", "ps": ["ẞ"], "us": [], "pat": None}]]
+    ctx_idx = [calls.conv(r, ":") for r in ctx_recs]
+
+    def add_build(cls, p, ident, name, ci):
+        ctx = calls.conv_objs[ci - 1] if ci else None
+        out, _ = _enc_out(I, lambda: build_ref(cls, p, ident, name, ctx))
+        calls.add({"f": "build", "cls": cls, "p": I(p), "id": I(ident), "name": [] if name is None else [I(name)], "ctx": ci, "out": out},
+                  {"f": "build", "cls": cls, "p": p, "id": ident, "name": name, "ctx": ci, "out": out[:3] if out[0] == "raise" else "ok"})
+
+    def add_from_curie(cls, s, sep, name, ci):
+        ctx = calls.conv_objs[ci - 1] if ci else None
+        out, _ = _enc_out(I, lambda: from_curie_ref(cls, s, sep, name, ctx))
+        calls.add({"f": "from_curie", "cls": cls, "s": I(s), "sep": I(sep), "name": [] if name is None else [I(name)], "ctx": ci, "out": out},
+                  {"f": "from_curie", "cls": cls, "s": s, "sep": sep, "name": name, "ctx": ci, "out": out[:3] if out[0] == "raise" else "ok"})
+
+    def add_validate(cls, s, ci):
+        if cls == "tuple":
+            return
+        ctx = calls.conv_objs[ci - 1] if ci else None
+        out, _ = _enc_out(I, lambda: _ref_cls(cls).model_validate(s, context=ctx))
+        calls.add({"f": "validate_str", "cls": cls, "s": I(s), "ctx": ci, "out": out},
+                  {"f": "validate_str", "cls": cls, "s": s, "ctx": ci, "out": out[:3] if out[0] == "raise" else "ok"})
+
+    def add_object_checks(obj):
+        ref = enc_ref(I, obj)
+        calls.add({"f": "curie", "ref": ref, "out": I(obj.curie)}, {"f": "curie", "ref": repr(obj), "out": obj.curie})
+        cls = _cls_name(obj)
+        nm = getattr(obj, "name", None)
+        # print -> parse
+        for via in ("from_curie", "validate_str", "json"):
+            try:
+                if via == "from_curie":
+                    back = from_curie_ref(cls, obj.curie, ":", nm, None)
+                elif via == "validate_str":
+                    if cls in ("tuple", "named"):
+                        continue
+                    back = type(obj).model_validate(obj.curie)
+                else:
+                    if cls == "tuple":
+                        continue
+                    back = type(obj).model_validate_json(obj.model_dump_json())
+                out, eq = ["ok", enc_ref(I, back)], bool(back == obj and obj == back and hash(back) == hash(obj))
+            except Exception as e:  # noqa: BLE001
+                out, eq = impl.enc_exc(e), False
+            calls.add({"f": "roundtrip", "via": via, "ref": ref, "out": out, "eq": eq},
+                      {"f": "roundtrip", "via": via, "ref": repr(obj), "out": out[:3] if out[0] == "raise" else "ok", "eq": eq})
+        # immutability
+        for field in ("prefix", "identifier"):
+            try:
+                setattr(obj, field, "zzz")
+                res = "ok"
+            except Exception:  # noqa: BLE001
+                res = "raise"
+            calls.add({"f": "setattr", "ref": ref, "field": field, "out": res, "after": enc_ref(I, obj)},
+                      {"f": "setattr", "ref": repr(obj), "field": field, "out": res})
+
+    def add_cmp(a, b):
+        try:
+            lt = ["val", bool(a < b)]
+        except Exception:  # noqa: BLE001
+            lt = ["raise"]
+        calls.add({"f": "cmp", "a": enc_ref(I, a), "b": enc_ref(I, b), "eq": bool(a == b), "hasheq": hash(a) == hash(b), "lt": lt},
+                  {"f": "cmp", "a": repr(a), "b": repr(b), "eq": bool(a == b), "hasheq": hash(a) == hash(b), "lt": lt})
+
+    heaps = [s["heap"] for s in states if s.get("heap")]
+    if cex:
+        heaps += [s["heap"] for s in cex if s.get("heap")]
+    rng.shuffle(heaps)
+    objs_seen = {}
+    for k, heap in enumerate(heaps[: (400 if quick else 4000)]):
+        cm = cmaps[k % 2]
+        objs = []
+        for r in heap:
+            p, ident = _dconc(r["p"], cm), _dconc(r["id"], cm)
+            name = _dconc(r["name"][0], cm) if r["name"] else None
+            add_build(r["cls"], p, ident, name, 0)
+            try:
+                o = build_ref(r["cls"], p, ident, name, None)
+            except Exception:  # noqa: BLE001
+                continue
+            objs.append(o)
+            key = (r["cls"], p, ident, name)
+            if key not in objs_seen:
+                objs_seen[key] = o
+                add_object_checks(o)
+        for a in objs:
+            for b in objs:
+                add_cmp(a, b)
+    # constructor matrix of the model (classes x prefixes x identifiers x names x separators x context)
+    for k, cm in enumerate(cmaps):
+        prefixes = ["", cm[1], cm[2], cm[3]]
+        idents = ["", cm[3], ":", cm[3] + ":" + cm[4], cm[1], "a/b#c d"]
+        names = [None, cm[9], cm[10]]
+        for cls in REF_CLASSES:
+            for p in prefixes:
+                for ident in idents:
+                    for name in names:
+                        for ci in (0, ctx_idx[k]):
+                            add_build(cls, p, ident, name, ci)
+                        for sep in (":", "::", "|"):
+                            for glue in (sep, ""):
+                                add_from_curie(cls, p + glue + ident, sep, name, 0)
+                    add_from_curie(cls, p + ":" + ident, ":", cm[9], ctx_idx[k])
+                    add_validate(cls, p + ":" + ident, 0)
+                    add_validate(cls, p + ":" + ident, ctx_idx[k])
+                    add_validate(cls, p + ident.replace(":", ""), 0)
+    n_model = len(calls.calls)
+    # random references, the full comparison matrix on small groups, triples files
+    ppool = ["", "a", "A", "go", "GO", "ß", "ss", "x.y", "é", "\U0001d4b3", "chebi", "a b", "n1"]
+    ipool = ["", "1", "0001", "a:b", ":", "::x", "a/b", "x#y", "é", "with space", "tab\there", 'quo"te', "comma,x", "nl\nx", "cr\rx", "ß", "1:2:3", "'", "\\"]
+    npool = [None, "name", "名前", ""]
+    for _ in range(60 if quick else 800):
+        group = []
+        for _ in range(rng.randrange(2, 5)):
+            cls = rng.choice(REF_CLASSES)
+            p, ident, name = rng.choice(ppool), rng.choice(ipool), rng.choice(npool)
+            if cls == "named" and name is None:
+                name = "n"
+            try:
+                o = build_ref(cls, p, ident, name, None)
+            except Exception:  # noqa: BLE001
+                continue
+            group.append(o)
+            add_object_checks(o)
+        if group and rng.random() < 0.5:
+            o = rng.choice(group)
+            group.append(build_ref(rng.choice(["ref", "namable"]), str(o.prefix), o.identifier, None, None))
+        for a in group:
+            for b in group:
+                add_cmp(a, b)
+    from curies.triples import Triple, read_triples, write_triples
+    tdir = tlc.scratch("triples")
+    try:
+        for k in range(25 if quick else 300):
+            rows = []
+            for _ in range(rng.randrange(1, 5)):
+                rows.append([curies.Reference(prefix=rng.choice([p for p in ppool]), identifier=rng.choice(ipool)) for _ in range(3)])
+            gz = k % 2 == 1
+            path = os.path.join(tdir, f"t{k}.tsv" + (".gz" if gz else ""))
+            try:
+                write_triples([Triple(subject=r[0], predicate=r[1], object=r[2]) for r in rows], path)
+                back = read_triples(path)
+                out = ["ok", [[enc_ref(I, t.subject), enc_ref(I, t.predicate), enc_ref(I, t.object)] for t in back]]
+            except Exception as e:  # noqa: BLE001
+                out = impl.enc_exc(e)
+            calls.add({"f": "triples", "rows": [[I(x.curie) for x in r] for r in rows], "gz": gz, "out": out},
+                      {"f": "triples", "rows": [[x.curie for x in r] for r in rows], "gz": gz, "out": "ok" if out[0] == "ok" else out[:3]})
+    finally:
+        shutil.rmtree(tdir, ignore_errors=True)
+    batch, group = calls.batch(200)
+    fails, stv = tlc.validate_calls(batch, spec="TraceRefs.tla", cfg="TraceRefs.cfg", timeout=1200 if quick else 3400)
+    lines, violations, known_f, other = verdict("C15", "refs", fails, calls, group, lambda c: {"C15"})
+    if model["violated"] and not violations:
+        raise MachineryError("TLC reports a C15 invariant violated on the model but the implementation conforms: the specification is wrong")
+    kinds = {}
+    for m in calls.meta:
+        kinds[m["f"]] = kinds.get(m["f"], 0) + 1
+    cov = {"states": model["distinct"], "transitions": model["generated"], "traces_validated_against_impl": len(calls.calls),
+           "samples": [calls.meta[0], calls.meta[n_model], calls.meta[-1]], "evaluations": len(calls.calls),
+           "distinct_nontrivial": len({json.dumps(m, sort_keys=True, ensure_ascii=False) for m in calls.meta if m["f"] in ("cmp", "roundtrip", "triples")}),
+           "rule": "evaluations = recorded operations on the four reference classes (constructors, from_curie with 1- and 2-character separators, string validation, JSON round-trip, ==, hash, <, attribute assignment, converter context, triples files plain and gzip); distinct_nontrivial = distinct comparison / round-trip / triples operations",
+           "exhaustive": True, "models": [model], "calls_from_model": n_model, "call_kinds": kinds, "call_validation": stv,
+           "other_clauses_failed": other, "known_findings": known_f}
+    return {"lines": lines, "violations": violations, "coverage": cov, "wall": time.time() - t0, "assumptions": ASSUME + [
+        "'<' is compared only between two pydantic references or two ReferenceTuples (mixed comparisons are not specified)",
+        "hash coherence is checked as Eq => equal hashes"]}
+
+
+CHECKS = {"C20": check_c20, "C19": check_c19, "C17": check_c17, "C18": check_c18, "C15": check_c15}
 
 
 def check(pid, tier, seed):
